@@ -201,7 +201,12 @@ pub fn gen_base(rng: &mut Rng, m: Meth, class: ProbClass, entry: Entry) -> Scena
     let mut sc = Scenario::basic(m, prob, x0, xend, y0);
     sc.entry = entry;
     let rtol = gen_rtol(rng, m);
-    sc.rtol = vec![rtol];
+    sc.rtol = if n > 1 && rng.bool(0.1) {
+        // per-component relative tolerance
+        (0..n).map(|_| rtol * rng.logu(0.3, 3.0)).collect()
+    } else {
+        vec![rtol]
+    };
     let a = rtol * rng.logu(1e-4, 1.0);
     sc.atol = if rng.bool(0.25) && n > 1 {
         (0..n).map(|_| a * rng.logu(0.1, 10.0)).collect()
@@ -210,7 +215,13 @@ pub fn gen_base(rng: &mut Rng, m: Meth, class: ProbClass, entry: Entry) -> Scena
     };
     if m == Meth::RK4 {
         let nsteps = rng.int(20, 160);
-        sc.first_step = if rng.bool(0.3) { None } else { Some((xend - x0) / nsteps as f64) };
+        sc.first_step = match rng.int(0, 9) {
+            0 | 1 | 2 => None,
+            // a fixed step that divides the interval ...
+            3 | 4 | 5 => Some((xend - x0) / nsteps as f64),
+            // ... and one that does not (the closing step is then shortened)
+            _ => Some((xend - x0) / (nsteps as f64 + rng.uni(0.05, 0.95))),
+        };
     }
     sc.jac = if rng.bool(0.5) { JacMode::Fd } else { JacMode::Analytic };
     sc
